@@ -4,6 +4,10 @@ import json, os
 ROOT = os.path.dirname(os.path.dirname(os.path.abspath(__file__)))
 ALL = ["C%02d" % i for i in range(1, 20)]
 CHECKS = {
+ "C12": dict(cat="model_checking", ref="§4 C12",
+   technique="explicit-state exploration: cycle/stop oracles on every enumerated Step of both real interpreters and along every instruction sequence (incl. past STP and Reset); every program to depth 3 x target x budget executed through the real System.RunUntil against a hand-stepped twin System, with program-counter callbacks as observers and non-termination guard",
+   text="Step part: the C02 sweeps and program search with the oracle cycles >= 1, AllCycles grows by exactly the reported count, stop status true from STP until Reset and never before, OnWDM receives exactly the operand (all 256). RunUntil part: all programs up to depth 3 over a 16-instruction alphabet (loops, STP, block moves, calls) in WRAM and ROM, every instruction boundary / inside-operand / unreachable / other-bank target, budgets {0,1,2,3,5,8,13,50}: result, final CPU state and memory must equal a twin System stepped by hand, callbacks must run exactly once per fetch with the pre-instruction state, and a run that executes more than budget+3 instructions is reported instead of hanging.",
+   note="Loop logic is judged against a twin that uses the same Step (Step semantics are C01/C02). cpualt offers no RunUntil and never consults OnPC, which the property allows."),
  "C01": dict(cat="model_checking", ref="§3.1-3.5, §4 C01, Appendix A/B",
    technique="explicit-state exploration of both real interpreters against a reference WDC 65C816 model: exhaustive products of boundary alphabets per opcode (fetch/addressing/operation/flag/frame sweeps) plus DFS over all instruction sequences to depth 4 (5), every transition a real Step compared through an abstraction function",
    text="Every enumerated raw state (all 256 opcodes x relevance-class products of boundary values incl. stale register copies, all 256 P values, bank/page/address-space edges) is stepped once on cpu65c816 and cpualt and compared with the reference model's registers, flags, PC and write set; a program search then executes every sequence over a 62-instruction alphabet (width switches, stack, transfers, block moves, control transfers) from 6 seed states with the reference in lockstep. Deviations are classified by named reference quirks so the recorded decimal-mode finding is recognised by its exact behaviour and anything else is a violation.",
